@@ -447,3 +447,6 @@ def run(tier, seed):
     col = run_shards(_shard, shards)
     return col, {"exhaustive": True, "scipy_methods": SCIPY_METHODS, "nlopt_methods": NLOPT_METHODS,
                  "cost_values": [repr(c) for c in COSTVALS]}
+
+
+RULE += (' Batches containing evaluated designs as a store hands them out (to_dict / JSON / from_dict), serial and parallel; sweeps of 1..9 designs under five settings of the inherited max_population_size / max_population_number / max_processes options.')
